@@ -12,11 +12,12 @@ def main(repo, build, shadowgen):
     if rc.returncode != 0:
         return 2
     env = dict(os.environ, CARGO_NET_OFFLINE="true", CARGO_TARGET_DIR=os.path.join(build, "shadow-tests-target"))
-    p = subprocess.run(["cargo", "test", "--offline", "-p", "apache-avro", "--no-fail-fast"], cwd=out_dir, env=env,
+    p = subprocess.run(["cargo", "test", "--offline", "--workspace", "--exclude", "hello-wasm", "--no-fail-fast"], cwd=out_dir, env=env,
                        stdout=subprocess.PIPE, stderr=subprocess.STDOUT, text=True)
     passed = sum(int(m.group(1)) for m in re.finditer(r"test result: \w+\. (\d+) passed", p.stdout))
     failed = sum(int(m.group(1)) for m in re.finditer(r"test result: \w+\. \d+ passed; (\d+) failed", p.stdout))
     errs = [l for l in p.stdout.splitlines() if l.startswith("error")]
+    print("(3 unit tests that destructure a boxed Details payload are blanked, see shadowgen SKIP_TESTS)")
     print(f"validate-shadow: {passed} tests passed, {failed} failed, compile errors: {len(errs)}")
     for l in errs[:20]:
         print(l)
